@@ -58,10 +58,14 @@ func (d wDest) Write(p []byte) (int, error) { return d.w.Write(p) }
 type buDest struct {
 	stored []byte
 	calls  int
+	fail   bool // the destination's own method rejects what it is given
 }
 
 func (d *buDest) UnmarshalBinary(b []byte) error {
 	d.calls++
+	if d.fail {
+		return errUserMethod
+	}
 	d.stored = append([]byte(nil), b...)
 	return nil
 }
@@ -70,10 +74,17 @@ func (d *buDest) UnmarshalBinary(b []byte) error {
 type tuDest struct {
 	stored []byte
 	calls  int
+	fail   bool
 }
+
+// errUserMethod is what a failing user (un)marshaler answers.
+var errUserMethod = errors.New("verif: the value's own (un)marshaler failed")
 
 func (d *tuDest) UnmarshalText(b []byte) error {
 	d.calls++
+	if d.fail {
+		return errUserMethod
+	}
 	d.stored = append([]byte(nil), b...)
 	return nil
 }
@@ -160,13 +171,37 @@ type dualSrc struct {
 
 func (d dualSrc) WriteTo(w io.Writer) (int64, error) { return d.wt.WriteTo(w) }
 
-type bmSrc struct{ data []byte }
+type bmSrc struct {
+	data  []byte
+	fail  bool
+	calls *int
+}
 
-func (s bmSrc) MarshalBinary() ([]byte, error) { return append([]byte(nil), s.data...), nil }
+func (s bmSrc) MarshalBinary() ([]byte, error) {
+	*s.calls++
+	if s.fail {
+		return append([]byte(nil), s.data...), errUserMethod
+	}
+	return append([]byte(nil), s.data...), nil
+}
 
-type tmSrc struct{ data []byte }
+type tmSrc struct {
+	data  []byte
+	fail  bool
+	calls *int
+}
 
-func (s tmSrc) MarshalText() ([]byte, error) { return append([]byte(nil), s.data...), nil }
+func (s tmSrc) MarshalText() ([]byte, error) {
+	*s.calls++
+	if s.fail {
+		return append([]byte(nil), s.data...), errUserMethod
+	}
+	return append([]byte(nil), s.data...), nil
+}
+
+// userFailKinds: the destination / source kinds whose own (un)marshaler can be made to fail (Case.UFail).
+var userFailDestKinds = []string{"binunm", "textunm"}
+var userFailSrcKinds = []string{"binm", "textm"}
 
 type errSrc struct{ msg string }
 
@@ -184,6 +219,8 @@ type dest struct {
 	get       func() []byte // bytes held by the destination after the call (nil func: nothing readable)
 	supported bool          // the codec documents this kind: a clean stream must be stored and succeed
 	sink      *sWriter      // the scripted writer behind a "writer" destination
+	ucalls    func() int    // calls of the destination's own UnmarshalBinary / UnmarshalText
+	setFail   func()        // makes that method fail
 }
 
 func clone(b []byte) []byte {
@@ -249,9 +286,11 @@ func mkDest(codec, kind string, pre []byte, o Script, bufsz int) (d dest, ok boo
 	case "binunm":
 		x := &buDest{}
 		d.v, d.get = x, func() []byte { return x.stored }
+		d.ucalls, d.setFail = func() int { return x.calls }, func() { x.fail = true }
 	case "textunm":
 		x := &tuDest{}
 		d.v, d.get = x, func() []byte { return x.stored }
+		d.ucalls, d.setFail = func() int { return x.calls }, func() { x.fail = true }
 	case "textunm-strkind":
 		x := new(hexText)
 		d.v, d.get = x, func() []byte { return unhex(string(*x)) }
@@ -366,9 +405,15 @@ type source struct {
 	jsonOf  interface{} // for struct/slice kinds: the value whose JSON form is expected
 	byteSrc bool        // the bytes written must be exactly the content
 	raw     []byte      // for []byte-kind sources: the very slice handed to Produce
+	ucalls  *int        // calls of the source's own MarshalBinary / MarshalText
 }
 
 func mkSource(kind string, content []byte, o Script) (s source, ok bool) {
+	return mkSourceF(kind, content, o, false)
+}
+
+// mkSourceF: ufail makes the source's own MarshalBinary / MarshalText fail (kinds binm, textm).
+func mkSourceF(kind string, content []byte, o Script, ufail bool) (s source, ok bool) {
 	s.byteSrc = true
 	switch kind {
 	case "writerto":
@@ -387,9 +432,11 @@ func mkSource(kind string, content []byte, o Script) (s source, ok bool) {
 		s.wt = &wtSrc{data: content, sc: o}
 		s.v = dualSrc{s.rd, s.wt}
 	case "binm":
-		s.v = bmSrc{content}
+		s.ucalls = new(int)
+		s.v = bmSrc{content, ufail, s.ucalls}
 	case "textm":
-		s.v = tmSrc{content}
+		s.ucalls = new(int)
+		s.v = tmSrc{content, ufail, s.ucalls}
 	case "error":
 		s.v = errSrc{string(content)}
 	case "stringer":
